@@ -252,6 +252,7 @@ UNITS = {
             I(MAP, r'^impl < K , V , S , A > PartialEq for HashMap < K , V , S , A > where', 'eq', impl='HashMap<K, V>|<K, V: PartialEq>', key='HashMap::eq'),
         ],
     ),
+    # (assoc inserted below)
     # C20: serde visitors over an arbitrary input
     'serde': dict(
         widths=[16],
@@ -267,6 +268,16 @@ UNITS = {
                  closure="fn visit_seq<M>(self, mut seq: M) -> Result<Self::Value, M::Error> where M: SeqAccess<'de>, {",
                  new_sig="fn visit_seq_in_place<'de, T, M: SeqAccess<'de, T>>(place: &mut HashSet<T>, mut seq: M) -> Result<(), M::Error>"),
         ],
+    ),
+    # C01 / C06: from buckets to keys (lemma-only unit over the contracts of units ctrl / rehash / resize)
+    'assoc': dict(
+        widths=[16, 8],
+        prelude='preludes/ctrl.rs',
+        prelude_extra=['preludes/rehash.rs'],
+        specs='contracts/ctrl.vspec',
+        lemmas=['lemmas/ctrl_lemmas.rs', 'lemmas/mask_lemmas.rs', 'lemmas/probe_lemmas.rs', 'lemmas/loop_lemmas.rs', 'lemmas/slot_lemmas.rs', 'lemmas/reach_lemmas.rs', 'lemmas/assoc_lemmas.rs'],
+        extra='ctrl_rules',
+        items=[],
     ),
 }
 
